@@ -58,6 +58,12 @@ func (g *Gen) key(label string) *idempotency.Key {
 	return &kk
 }
 
+// regTimeout: the timeout of a registration (it becomes the timeout of the task it is converted into): mostly far
+// away, sometimes so short that the task is already overdue when a dispatch cycle finds it
+func (g *Gen) regTimeout() int64 {
+	return []int64{100000, 100000, 100000, 500, 1500, 3000}[g.D.Uni(6, "regtimeout")]
+}
+
 func (g *Gen) kind() string {
 	names := make([]string, 0, len(g.W))
 	total := 0
@@ -146,9 +152,9 @@ func (g *Gen) Req(now int64) *t_api.Request {
 				}
 			}
 		}
-		return &t_api.Request{Kind: t_api.CreateCallback, CreateCallback: &t_api.CreateCallbackRequest{Id: fmt.Sprintf("cb.%s.%s", root, id), PromiseId: id, RootPromiseId: root, Timeout: now + 100000, Recv: []byte(`"` + g.pick([]string{"poll://g/w", "default"}, "recv") + `"`)}}
+		return &t_api.Request{Kind: t_api.CreateCallback, CreateCallback: &t_api.CreateCallbackRequest{Id: fmt.Sprintf("cb.%s.%s", root, id), PromiseId: id, RootPromiseId: root, Timeout: now + g.regTimeout(), Recv: []byte(`"` + g.pick([]string{"poll://g/w", "default"}, "recv") + `"`)}}
 	case "CreateSubscription":
-		return &t_api.Request{Kind: t_api.CreateSubscription, CreateSubscription: &t_api.CreateSubscriptionRequest{Id: g.pick(g.Subs, "sub"), PromiseId: g.pick(g.Pids, "pid"), Timeout: now + 100000, Recv: []byte(`"poll://g/w"`)}}
+		return &t_api.Request{Kind: t_api.CreateSubscription, CreateSubscription: &t_api.CreateSubscriptionRequest{Id: g.pick(g.Subs, "sub"), PromiseId: g.pick(g.Pids, "pid"), Timeout: now + g.regTimeout(), Recv: []byte(`"poll://g/w"`)}}
 	case "AcquireLock":
 		ex := g.pick(g.Execs, "ex")
 		return &t_api.Request{Kind: t_api.AcquireLock, AcquireLock: &t_api.AcquireLockRequest{ResourceId: g.pick(g.Res, "res"), ExecutionId: ex, ProcessId: g.pick(g.Workers, "proc"), Ttl: int64(g.D.Int(0, 3, "ttl")) * 1000}}
